@@ -37,7 +37,7 @@ PROPS = {
     },
     "C19": {
         "level": "proof",
-        "static": [static.registry_writers],
+        "static": [static.registry_writers, static.registry_memo],
         "trusted": ["Dimension.define/derive: covered by the bounded stand-in only (Dimension.define rewrites every key of the intern table in a loop)"],
         "explanation": "Registry invariants I_R (units) and I_RP (prefixes): a name/symbol is bound to an object iff the object reports it. Unit.alias, "
                        "Unit.define and the named Prefix constructor are verified against 'bound and reported afterwards, from every prior state "
@@ -130,7 +130,7 @@ PROPS = {
     },
     "C13": {
         "level": "other", "manifest_level": "other",
-        "static": [static.memo_args, static.core_state],
+        "static": [static.memo_args, static.core_state, static.registry_memo],
         "trusted": ["the generated LALR parser builds the tree the grammar assigns to the text (A10)"],
         "explanation": "Ground evaluation over the finite registry (every unit x every registered prefix, exponents, products, quantities, alternative spellings) of "
                        "the real str()/parse() pair; no contract is proved (string construction by generator expressions over characters and the LALR driver are "
@@ -146,7 +146,7 @@ PROPS = {
     },
     "C17": {
         "level": "other", "manifest_level": "other",
-        "static": [static.memo_args, static.core_state, static.registry_writers],
+        "static": [static.memo_args, static.core_state, static.registry_writers, static.registry_memo],
         "trusted": ["the generated LALR driver raises only LarkError subclasses (A10)"],
         "explanation": "Frame part by contract: Unit.alias(None, None) and the constructor contracts show that building anonymous units never writes the name/symbol "
                        "registries; totality, determinism and registry snapshots are checked natively over edge inputs (5000-digit numbers, NUL, unicode digits, 100k characters), "
